@@ -5,7 +5,8 @@ ONLY property statements and non-vacuity examples live here; lemmas are in Proof
 Every theorem quantifies over ALL build histories `ops : List Op` (AddNode / AddEdge in any order, arbitrary
 natural ids, self loops, parallel and antiparallel edges, isolated and repeated nodes, duplicate edge ids).
 `G.ofOps ops` is the ground truth edge list; containers are compared as SETS per (node, direction).
-`fixed = false` is the code as it is, `fixed = true` the repair of hooks/C14-fix.patch.
+`fixed = true` selects the definitions of the code AS IT IS NOW (F2 repaired in /repo by 789c790, `Edge.Other`);
+`fixed = false` the definitions before that repair — only the `…_old` theorems talk about those.
 -/
 import Dawgs.Proofs.C14Glue
 namespace Dawgs.C14.Props
@@ -63,20 +64,20 @@ private theorem ts_spec (fixed : Bool) (ops : List Op) (dels : List Nat) (v : Na
     exact this
   rw [this]; simp
 
-/-- what holds of the code as it is: outbound and inbound. -/
-theorem ts_adj_eq_partial (ops : List Op) (dels : List Nat) (v : Nat) (d : Dir) (hd : d ≠ .both) :
+/-- the code before 789c790: outbound and inbound only. -/
+theorem ts_adj_eq_old_partial (ops : List Op) (dels : List Nat) (v : Nat) (d : Dir) (hd : d ≠ .both) :
     SetEq ((tsOf ops dels).adjacent false v d) (((G.ofOps ops).dropEdges dels).adj v d) :=
   ts_spec false ops dels v d (Or.inl hd)
 
-/-- DESIGN §5 F2: FALSE of the current code — one edge 1→2: `adjacent(1, both) ∋ 1`. -/
-theorem ts_adj_both_refuted : ¬ TsPresents false := by
+/-- DESIGN §5 F2 (repaired): FALSE of the code before 789c790 — one edge 1→2: `adjacent(1, both) ∋ 1`. -/
+theorem ts_adj_both_refuted_old : ¬ TsPresents false := by
   intro h
   have h1 : 1 ∈ (tsOf [.edge 10 1 2] []).adjacent false 1 .both := by decide
   have h2 := (h [.edge 10 1 2] [] 1 .both 1).mp h1
   revert h2; decide
 
-/-- the repaired `adjacent` (`Edge.Other`) presents the graph in all three directions. -/
-theorem ts_adj_eq_fixed : TsPresents true :=
+/-- the triple store (any tombstones) presents the graph in all three directions. -/
+theorem ts_adj_eq : TsPresents true :=
   fun ops dels v d => ts_spec true ops dels v d (Or.inr rfl)
 
 /-- FULL statement for projections: for all deleted-node and deleted-edge sets, the projection presents the
@@ -84,27 +85,36 @@ edge list minus those edges and minus every edge touching a deleted node. -/
 def ProjPresents (fixed : Bool) : Prop :=
   ∀ ops dn de, Presents (Proj.adjacent fixed ⟨TS.build ops, dn, de⟩) ((G.ofOps ops).project dn de)
 
-theorem proj_adj_eq_partial (ops : List Op) (dn de : List Nat) (v : Nat) (d : Dir) (hd : d ≠ .both) :
+/-- the code before 789c790: outbound and inbound only. -/
+theorem proj_adj_eq_old_partial (ops : List Op) (dn de : List Nat) (v : Nat) (d : Dir) (hd : d ≠ .both) :
     SetEq (Proj.adjacent false ⟨TS.build ops, dn, de⟩ v d) (((G.ofOps ops).project dn de).adj v d) :=
   fun y => Proj.adjacent_spec (TS.rel_build ops) false dn de v y d (Or.inl hd)
 
-/-- DESIGN §5 F2: FALSE of the current code — `Pick(both)` returns `Start`: edge 1→2, `both(1) = {1}`. -/
-theorem proj_adj_both_refuted : ¬ ProjPresents false := by
+/-- DESIGN §5 F2 (repaired): FALSE of the code before 789c790 — `Pick(both)` returned `Start`: edge 1→2, `both(1) = {1}`. -/
+theorem proj_adj_both_refuted_old : ¬ ProjPresents false := by
   intro h
   have h1 : 2 ∈ ((G.ofOps [.edge 10 1 2]).project [] []).adj 1 .both := by decide
   have h2 := (h [.edge 10 1 2] [] [] 1 .both 2).mpr h1
   revert h2; decide
 
-theorem proj_adj_eq_fixed : ProjPresents true :=
+/-- every projection of a store built without `DeleteEdge` presents the projected graph, all three directions. -/
+theorem proj_adj_eq : ProjPresents true :=
   fun ops dn de v d y => Proj.adjacent_spec (TS.rel_build ops) true dn de v y d (Or.inr rfl)
 
-/-- additional finding (not F2): a projection ignores the origin's `DeleteEdge` tombstones. -/
+/-- KNOWN FINDING (C14:triplestoreProjection.EachAdjacentEdge:ignores-origin-DeleteEdge), precise statement:
+a projection of a store WITH tombstones presents the projected graph of the un-tombstoned edge list — the
+origin's `DeleteEdge` set is ignored (`EachAdjacentEdge`/`EachEdge` never consult it) … -/
+theorem proj_tombstone_partial (ops : List Op) (dels dn de : List Nat) :
+    Presents (Proj.adjacent true ⟨tsOf ops dels, dn, de⟩) ((G.ofOps ops).project dn de) :=
+  fun v d y => Proj.adjacent_spec (TS.deleteAll_rel (TS.rel_build ops) dels) true dn de v y d (Or.inr rfl)
+
+/-- … and therefore does NOT present the graph the store itself presents (`ts_adj_eq`): edge 10: 1→2,
+`DeleteEdge(10)`: the store says `out(1) = ∅`, its empty projection says `out(1) = {2}`. -/
 theorem proj_tombstone_refuted :
-    ¬ ∀ ops dels dn de v, SetEq (Proj.adjacent false ⟨tsOf ops dels, dn, de⟩ v .out)
-        ((((G.ofOps ops).dropEdges dels).project dn de).adj v .out) := by
+    ¬ ∀ ops dels dn de, Presents (Proj.adjacent true ⟨tsOf ops dels, dn, de⟩) (((G.ofOps ops).dropEdges dels).project dn de) := by
   intro h
-  have h1 : 2 ∈ Proj.adjacent false ⟨tsOf [.edge 10 1 2] [10], [], []⟩ 1 .out := by decide
-  have h2 := (h [.edge 10 1 2] [10] [] [] 1 2).mp h1
+  have h1 : 2 ∈ Proj.adjacent true ⟨tsOf [.edge 10 1 2] [10], [], []⟩ 1 .out := by decide
+  have h2 := (h [.edge 10 1 2] [10] [] [] 1 .out 2).mp h1
   revert h2; decide
 
 /-- node sets and `NumNodes`: every container lists each node of the graph exactly once (isolated nodes and
@@ -164,19 +174,21 @@ private theorem containers_ok (fixed : Bool) (ops : List Op) (dels dn de : List 
   · exact ⟨fun v w => Proj.adjacent_spec (TS.rel_build ops) fixed dn de v w d hgood, G.closed_project hcl dn de,
       fun n h => (Proj.mem_nodes (TS.rel_build ops) dn de n).mpr h⟩
 
-/-- `Reach` from any container equals true reachability: run with fuel `NumNodes + 1` it terminates and
+/-- (generic in the code version; `reach_eq` below is the statement about the code as it is)
+`Reach` from any container equals true reachability: run with fuel `NumNodes + 1` it terminates and
 returns exactly the nodes reachable from `s` in ≥ 1 step of the ground-truth graph (so `s` itself only when it
 lies on a cycle — what container.Reach's own tests expect). -/
-theorem reach_eq (fixed : Bool) (ops : List Op) (dels dn de : List Nat) (d : Dir) (hgood : d ≠ .both ∨ fixed = true) (s : Nat) :
+theorem reach_eq_gen (fixed : Bool) (ops : List Op) (dels dn de : List Nat) (d : Dir) (hgood : d ≠ .both ∨ fixed = true) (s : Nat) :
     ∀ c ∈ containers fixed ops dels dn de,
       ∃ r, reach (fun v => c.1 v d) (c.2.2.length + 1) s = some r ∧ ∀ w, w ∈ r ↔ Reachable (fun v => c.2.1.adj v d) s w := by
   intro c hc
   obtain ⟨h1, h2, h3⟩ := containers_ok fixed ops dels dn de d hgood c hc
   exact reach_of_presents (fun v => c.1 v d) c.2.1 d h1 h2 c.2.2 h3 s
 
-/-- `BFSTree` from any container: terminates with fuel `NumNodes + 1`; reports each ≥1-step reachable node
+/-- (generic in the code version; `bfsTree_dist_eq` below is the statement about the code as it is)
+`BFSTree` from any container: terminates with fuel `NumNodes + 1`; reports each ≥1-step reachable node
 exactly once, with the length of a SHORTEST walk of the ground-truth graph. -/
-theorem bfsTree_dist_eq (fixed : Bool) (ops : List Op) (dels dn de : List Nat) (d : Dir) (hgood : d ≠ .both ∨ fixed = true) (s : Nat) :
+theorem bfsTree_dist_eq_gen (fixed : Bool) (ops : List Op) (dels dn de : List Nat) (d : Dir) (hgood : d ≠ .both ∨ fixed = true) (s : Nat) :
     ∀ c ∈ containers fixed ops dels dn de,
       ∃ ts, bfsTree (fun v => c.1 v d) (c.2.2.length + 1) s = some ts ∧ (ts.map (·.node)).Nodup ∧
         (∀ w, (∃ t ∈ ts, t.node = w) ↔ Reachable (fun v => c.2.1.adj v d) s w) ∧
@@ -184,6 +196,20 @@ theorem bfsTree_dist_eq (fixed : Bool) (ops : List Op) (dels dn de : List Nat) (
   intro c hc
   obtain ⟨h1, h2, h3⟩ := containers_ok fixed ops dels dn de d hgood c hc
   exact bfs_of_presents (fun v => c.1 v d) c.2.1 d h1 h2 c.2.2 h3 s
+
+/-- `Reach` from every container of the code as it is, all three directions. -/
+theorem reach_eq (ops : List Op) (dels dn de : List Nat) (d : Dir) (s : Nat) :
+    ∀ c ∈ containers true ops dels dn de,
+      ∃ r, reach (fun v => c.1 v d) (c.2.2.length + 1) s = some r ∧ ∀ w, w ∈ r ↔ Reachable (fun v => c.2.1.adj v d) s w :=
+  reach_eq_gen true ops dels dn de d (Or.inr rfl) s
+
+/-- `BFSTree` from every container of the code as it is, all three directions: shortest walk lengths. -/
+theorem bfsTree_dist_eq (ops : List Op) (dels dn de : List Nat) (d : Dir) (s : Nat) :
+    ∀ c ∈ containers true ops dels dn de,
+      ∃ ts, bfsTree (fun v => c.1 v d) (c.2.2.length + 1) s = some ts ∧ (ts.map (·.node)).Nodup ∧
+        (∀ w, (∃ t ∈ ts, t.node = w) ↔ Reachable (fun v => c.2.1.adj v d) s w) ∧
+        (∀ t ∈ ts, IsDist (fun v => c.2.1.adj v d) s t.node t.dist) :=
+  bfsTree_dist_eq_gen true ops dels dn de d (Or.inr rfl) s
 
 /-- `Normalize` (adjacency map and CSR) is an isomorphism onto ids `0..n-1`: the reverse index lists every
 node once, and `j` is a neighbour of normal node `i` iff `rev[j]` is a neighbour of `rev[i]` in the ground truth. -/
@@ -238,7 +264,7 @@ theorem segment_roundtrip (s : List Seg) (hne : s ≠ []) (h64 : ∀ x ∈ s, x.
 /-- C14 at full strength for a given version of the code: every container presents the ground truth in all
 three directions (triple store with any tombstones, every projection), node counts agree, Reach and BFSTree
 from every container are exact for all three directions, Normalize is an isomorphism, segments round-trip. -/
-def C14_full (fixed : Bool) : Prop :=
+def C14_for (fixed : Bool) : Prop :=
   (∀ ops, Presents (AdjMap.build ops).adjacent (G.ofOps ops) ∧ Presents (Csr.ofOps ops).adjacent (G.ofOps ops)) ∧
   TsPresents fixed ∧ ProjPresents fixed ∧
   (∀ ops, (AdjMap.build ops).numNodes = (Csr.ofOps ops).numNodes ∧ (Csr.ofOps ops).numNodes = (TS.build ops).numNodes ∧
@@ -255,26 +281,31 @@ def C14_full (fixed : Bool) : Prop :=
   (∀ (s : List Seg) (hne : s ≠ []), (∀ x ∈ s, x.node < 2 ^ 64 ∧ x.edge < 2 ^ 64) → (s.getLast hne).edge = 0 →
     unmarshal (marshal s) = some s)
 
-/-- the current code does NOT satisfy C14 (F2: `DirectionBoth` in the triple store and its projections). -/
-theorem c14_full_refuted : ¬ C14_full false :=
-  fun h => ts_adj_both_refuted h.2.1
+/-- C14 at full strength, about the code AS IT IS. (Stores carrying `DeleteEdge` tombstones are covered for the
+store itself; their projections, `BFSTreeFile.ReadEach` and `SerializedSegment.ToSegment` are the remaining known
+findings, stated precisely in `proj_tombstone_partial/_refuted`, `toSegment_panics`; TSBFS/TSDFS/TSStatelessBFS
+have their own theorems below.) -/
+def C14_full : Prop := C14_for true
 
-/-- with the repair of hooks/C14-fix.patch the whole property holds. -/
-theorem c14_fixed : C14_full true := by
-  refine ⟨fun ops => ⟨adjmap_adj_eq ops, csr_adj_eq ops⟩, ts_adj_eq_fixed, proj_adj_eq_fixed, ?_, ?_, ?_, ?_⟩
+theorem c14 : C14_full := by
+  refine ⟨fun ops => ⟨adjmap_adj_eq ops, csr_adj_eq ops⟩, ts_adj_eq, proj_adj_eq, ?_, ?_, ?_, ?_⟩
   · intro ops
     have h := numNodes_eq ops
     exact ⟨h.2.2.2.2.2.2.1, h.2.2.2.2.2.2.2.1, h.1⟩
   · intro ops dels dn de d s c hc
-    exact ⟨reach_eq true ops dels dn de d (Or.inr rfl) s c hc, bfsTree_dist_eq true ops dels dn de d (Or.inr rfl) s c hc⟩
+    exact ⟨reach_eq ops dels dn de d s c hc, bfsTree_dist_eq ops dels dn de d s c hc⟩
   · intro ops i v d j
     have h := normalize_iso ops
     exact ⟨fun hi => h.1.2.2 i v hi d j, fun hi => h.2.2.2 i v hi d j⟩
   · intro s hne h64 hroot
     exact (segment_roundtrip s hne h64 hroot).1
 
-/-- what holds of the code AS IT IS: everything of `C14_full` except `both` on the triple store / projections. -/
-theorem c14_partial :
+/-- the code before 789c790 did NOT satisfy C14 (F2: `DirectionBoth` in the triple store and its projections) … -/
+theorem c14_refuted_old : ¬ C14_for false :=
+  fun h => ts_adj_both_refuted_old h.2.1
+
+/-- … it satisfied everything of `C14_for` except `both` on the triple store / projections. -/
+theorem c14_old_partial :
     (∀ ops, Presents (AdjMap.build ops).adjacent (G.ofOps ops) ∧ Presents (Csr.ofOps ops).adjacent (G.ofOps ops)) ∧
     (∀ ops dels dn de v d, d ≠ .both →
       SetEq ((tsOf ops dels).adjacent false v d) (((G.ofOps ops).dropEdges dels).adj v d) ∧
@@ -285,9 +316,15 @@ theorem c14_partial :
         (∀ w, (∃ t ∈ ts, t.node = w) ↔ Reachable (fun v => c.2.1.adj v d) s w) ∧
         (∀ t ∈ ts, IsDist (fun v => c.2.1.adj v d) s t.node t.dist))) :=
   ⟨fun ops => ⟨adjmap_adj_eq ops, csr_adj_eq ops⟩,
-   fun ops dels dn de v d hd => ⟨ts_adj_eq_partial ops dels v d hd, proj_adj_eq_partial ops dn de v d hd⟩,
+   fun ops dels dn de v d hd => ⟨ts_adj_eq_old_partial ops dels v d hd, proj_adj_eq_old_partial ops dn de v d hd⟩,
    fun ops dels dn de d s hd c hc =>
-     ⟨reach_eq false ops dels dn de d (Or.inl hd) s c hc, bfsTree_dist_eq false ops dels dn de d (Or.inl hd) s c hc⟩⟩
+     ⟨reach_eq_gen false ops dels dn de d (Or.inl hd) s c hc, bfsTree_dist_eq_gen false ops dels dn de d (Or.inl hd) s c hc⟩⟩
+
+/-- KNOWN FINDING (C14:SerializedSegment.ToSegment:Edges-index-minus-one-panic), precise statement: `ToSegment`
+panics (`none`) on EVERY serialized segment that has a node and an edge; it only works for edge-less input,
+where it keeps the last node. -/
+theorem toSegment_panics (n : Nat) (ns : List Nat) (e : Nat) (es : List Nat) : toSegment (n :: ns) (e :: es) = none := rfl
+theorem toSegment_partial (n : Nat) : toSegment [n] [] = some [⟨n, 0⟩] := rfl
 
 /-! ### Non-vacuity: the hypotheses are satisfiable on non-trivial states, and the models are not degenerate.
 Graph: isolated node 9, self loop on 5, parallel edges 7→3 (twice), antiparallel 3→7, chain 7→3→5, sparse id 2^40. -/
@@ -310,7 +347,7 @@ example : bfsTree (fun v => (Csr.ofOps demoOps).adjacent v .out) 6 7 =
     some [⟨3, 1⟩, ⟨7, 2⟩, ⟨5, 2⟩, ⟨1099511627776, 3⟩] := by decide
 example : (AdjMap.build demoOps).normalize.1 = [3, 5, 7, 9, 1099511627776] ∧
           (AdjMap.build demoOps).normalize.2.adjacent 0 .out = [1, 2] := by decide
--- hypotheses of `reach_eq` / `bfsTree_dist_eq` / `c14_partial`: `d ≠ both ∨ fixed` is satisfiable both ways
+-- hypotheses of `reach_eq_gen` / `bfsTree_dist_eq_gen` / `c14_old_partial`: `d ≠ both ∨ fixed` is satisfiable both ways
 example : (Dir.out ≠ Dir.both ∨ false = true) ∧ (Dir.both ≠ Dir.both ∨ true = true) := by decide
 -- hypotheses of `segment_roundtrip` on a 3-node chain with ids ≥ 2^32 and a byte 0x0A
 example : unmarshal (marshal [⟨10, 4294967297⟩, ⟨18446744073709551615, 7⟩, ⟨1, 0⟩]) =
